@@ -438,6 +438,11 @@ func contentExperiment(rng *rand.Rand, out *Out) {
 			out.Oracle(false, "rollback-accepted", Tup(err.Error()))
 			return
 		}
+		for _, a := range r.pr.allAccounts() {
+			if !r.pr.clauseAfterDelete(a, "content: backlog dropped by a momentum delete") {
+				return
+			}
+		}
 	}
 }
 
